@@ -178,23 +178,26 @@ def build_harness(name, defines, extra_flags=None, sanitize=True):
     flags = list(BASE_FLAGS) if sanitize else ["-std=c++17", "-O2", "-g", "-DYAKUSHIMA_LINUX", "-DYAKUSHIMA_VERIF"]
     flags += ["-D%s=%s" % kv for kv in sorted(defines.items())]
     flags += extra_flags or []
-    key = tree_hash([INC, os.path.join(VERIF, "harness")]) + "_" + hashlib.sha256(" ".join(flags).encode()).hexdigest()[:8]
+    th = tree_hash([INC, os.path.join(VERIF, "harness")])
+    key = th + "_" + hashlib.sha256(" ".join(flags).encode()).hexdigest()[:8]
     out = os.path.join(CACHE, "%s_%s" % (name, key))
     if os.path.exists(out):
         return out, None
-    # drop stale binaries of this harness
+    # drop binaries of this harness built from an older tree (other flag sets of this tree stay)
     for fn in os.listdir(CACHE):
-        if fn.startswith(name + "_") and not fn.endswith(".txt"):
+        if fn.startswith(name + "_") and not fn.startswith("%s_%s_" % (name, th)) and not fn.endswith(".txt"):
             try:
                 os.remove(os.path.join(CACHE, fn))
             except OSError:
                 pass
-    cmd = ["g++"] + flags + ["-I" + INC, "-I" + os.path.join(VERIF, "harness"), src, "-o", out,
+    tmp = out + ".tmp%d" % os.getpid()
+    cmd = ["g++"] + flags + ["-I" + INC, "-I" + os.path.join(VERIF, "harness"), src, "-o", tmp,
                             "-lglog", "-ltbb", "-lpthread"]
     t0 = time.time()
     r = sh(cmd)
     if r.returncode != 0:
         return None, "harness %s does not compile against the working tree:\n%s" % (name, r.stderr[-3000:])
+    os.replace(tmp, out)
     log("built %s in %.1fs" % (name, time.time() - t0))
     return out, None
 
